@@ -436,9 +436,12 @@ class InterpolatedPredictionStrategy(DefaultPredictionStrategy):
         self.uses_wiski = uses_wiski
 
     def _exact_predictive_covar_inv_quad_form_cache(self, train_train_covar_inv_root, test_train_covar):
-        train_interp_indices = test_train_covar.right_interp_indices
-        train_interp_values = test_train_covar.right_interp_values
-        base_linear_op = test_train_covar.base_linear_op
+        # the training side of the interpolation is a property of the strategy, not of the test call that happens to fill the
+        # cache: taking it from test_train_covar would bake the batch shape of that call into the cached root
+        train_train_covar = self.train_prior_dist.lazy_covariance_matrix
+        train_interp_indices = train_train_covar.left_interp_indices
+        train_interp_values = train_train_covar.left_interp_values
+        base_linear_op = train_train_covar.base_linear_op
         base_size = base_linear_op.size(-1)
         res = base_linear_op.matmul(
             left_t_interp(train_interp_indices, train_interp_values, train_train_covar_inv_root, base_size)
